@@ -107,6 +107,47 @@ def install(models):
                    ("__contains__", mp_contains)):
         models.methods[(Mapping, nm)] = B("Mapping." + nm, fn)
 
+    # ---- io.RawIOBase / IOBase: close / closed / context manager / readall ---------------------
+    import io
+    import _io
+
+    def io_close(interp, s):
+        if not truth(s.fields.get("__closed", False)):
+            s.fields["__closed"] = True
+
+    def io_enter(interp, s):
+        if truth(s.fields.get("__closed", False)):
+            interp.ctx.raise_builtin(ValueError, "I/O operation on closed file.")
+        return s
+
+    def io_exit(interp, s, *a):
+        interp.call(interp.getattr(s, "close"), [], {})
+        return None
+
+    def io_readall(interp, s):
+        """RawIOBase.readall: concatenates successive read() results until an empty one (needs a bounded loop)"""
+        out = SBytes([], False)
+        n = 0
+        while True:
+            n += 1
+            if n > 64:
+                raise Unsupported("readall over more than 64 chunks (needs the upload lemma)")
+            d = interp.call(interp.getattr(s, "read"), [8192], {})
+            if d is None:
+                return out if out.items else None
+            if isinstance(d, LBytes):
+                raise Unsupported("readall over symbolic-length chunks")
+            if len(d.items) == 0:
+                return out
+            out = SBytes(out.items + d.items, False)
+
+    def io_flush(interp, s):
+        return None
+    for nm, fn in (("close", io_close), ("__enter__", io_enter), ("__exit__", io_exit), ("readall", io_readall),
+                   ("flush", io_flush)):
+        models.methods[(_io._IOBase, nm)] = B("IOBase." + nm, fn)
+    models.methods[(_io._IOBase, "closed")] = B("IOBase.closed", lambda interp, s: s.fields.get("__closed", False))
+
     # ---- queue.Queue (FIFO; an empty queue asks the environment hook for the next item) -----------
     def queue_ctor(interp, maxsize=0):
         return SObj(QueueModel, {"items": I.SList([])})
@@ -126,7 +167,10 @@ def install(models):
     def q_get(interp, q, block=True, timeout=None):
         lst = q.fields["items"]
         if lst.base is not None:
-            raise Unsupported("get from a queue with unknown content")
+            if truth(V.compare("==", lst.base.length, 0)):
+                lst.base = None              # known to be empty on this path
+            else:
+                raise Unsupported("get from a queue with unknown content")
         if lst.items:
             return lst.items.pop(0)
         h = getattr(interp, "queue_get_hook", None)
